@@ -173,9 +173,8 @@ Clauses(r) ==
     IN IF (nsteps > 0 /\ (~ prev.alive \/ ~ prev.dom)) \/ ~ s.dom
        THEN << >>      \* below a dead node / outside what the documentation pins: observed, not judged (see Unjudged)
        ELSE IF ~ s.alive
-            THEN << Cl(stepName, "raises-DatasetException-for-non-positive-noise-with-the-check-on",
-                       \/ dead /\ r.fl[nsteps + 1].exc = "DatasetException"
-                       \/ dead /\ nsteps > 0 /\ r.steps[nsteps].a = "mask" /\ Inherited(r, "par")) >>
+            THEN << Cl(stepName, "raises-for-non-positive-noise-with-the-check-on",
+                       dead) >>      \* (the kind of exception is not documented; DatasetException in the code)
        ELSE IF dead
             \* (a second apply_mask that raises because an EARLIER step already lost `unmasked` was reported there)
             THEN << Cl(stepName, "the-call-succeeds", nsteps > 0 /\ r.steps[nsteps].a = "mask" /\ Inherited(r, "par")) >>
